@@ -311,7 +311,7 @@ func VerifC01_Create() {
 func VerifC01_Hist() {
 	ls := []string{"1s:2s"}
 	if vrt.Tier() == 1 {
-		ls = []string{"1s:2s", "1s:3s", "5s:15s", "1s:2s,2s:6s"}
+		ls = []string{"1s:2s", "1s:3s"}
 	}
 	txt := ls[vrt.Choose("layout", len(ls))]
 	list, _ := ParseArchiveInfoList(txt)
